@@ -80,6 +80,9 @@ func c03(p *Prog, r *Report) {
 	r.Rule(R4, "no recursion among in-module functions of the scope", 1)
 	r.Rule(R5, "explicit panics unreachable or documented own-key preconditions; unchecked type assertions cannot fail", 5)
 	r.Rule(R6, "every listed entry point exists", 1)
+	const R8 = "C03.constructors-initialise-used-fields"
+	r.Rule(R8, "every composite literal that builds a module struct sets each embedded-by-value struct field whose zero value holds nil interfaces, if that field is read anywhere (no zero key reaches a method call on its nil interface field)", 1)
+	constructorsInitialiseUsedFields(p, r, R8)
 	r.Rule(R7, "ecdsa verification core (modular inverse of s, nil on failure) reachable only behind 0 < r,s < N", 5)
 
 	var entries []*ssa.Function
